@@ -22,8 +22,8 @@ class C07 : public Check
 public:
     const char *id() { return "C07"; }
     const char *opName(int k) { return pName(k); }
-    int quickRuns() { return 4000; }
-    int quickSeconds() { return 70; }
+    int quickRuns() { return 16000; }
+    int quickSeconds() { return 90; }
     int thoroughSeconds() { return 900; }
     const char *rule()
     {
@@ -283,6 +283,26 @@ public:
                     int pos = deliveredPos[tk][i];
                     if(lastPos >= 0 && x.tick > lastTick && pos < lastPos) { run.fail("order-across-ticks", "kind" + std::to_string(x.kind), what + " delivered before an event of an earlier tick of the same track"); break; }
                     if(x.tick >= lastTick) { if(pos > lastPos || x.tick > lastTick) { lastPos = std::max(lastPos, pos); lastTick = x.tick; } }
+                }
+                // same-tick rule for one key: its note-ons and note-offs at one tick arrive in file order, except that the note-off
+                // ending a note that sounded before the tick comes first (zero-length and re-struck notes keep on -> off -> on ...)
+                for(size_t i = 0; i < ref.tracks[tk].size() && !run.failed(); ++i)
+                {
+                    const ExpEvent &a = ref.tracks[tk][i]; if(a.isEOT || (a.kind != 0x8 && a.kind != 0x9)) continue;
+                    bool first = true; for(size_t q = i; q-- > 0 && ref.tracks[tk][q].tick == a.tick;) { const ExpEvent &z = ref.tracks[tk][q]; if(!z.isEOT && (z.kind == 0x8 || z.kind == 0x9) && z.ch == a.ch && z.d1 == a.d1) { first = false; break; } }
+                    if(!first) continue;
+                    std::vector<size_t> grp; for(size_t q = i; q < ref.tracks[tk].size() && ref.tracks[tk][q].tick == a.tick; ++q) { const ExpEvent &z = ref.tracks[tk][q]; if(!z.isEOT && (z.kind == 0x8 || z.kind == 0x9) && z.ch == a.ch && z.d1 == a.d1 && deliveredPos[tk][q] >= 0) grp.push_back(q); }
+                    if(grp.size() < 2) continue;
+                    std::vector<size_t> want; for(size_t q = 0; q < grp.size(); ++q) if(ref.tracks[tk][grp[q]].soundingOff) want.push_back(grp[q]);
+                    for(size_t q = 0; q < grp.size(); ++q) if(!ref.tracks[tk][grp[q]].soundingOff) want.push_back(grp[q]);
+                    run.count("same_tick_on_off_group");
+                    for(size_t q = 1; q < want.size(); ++q) if(deliveredPos[tk][want[q - 1]] > deliveredPos[tk][want[q]])
+                    {
+                        std::string seq; std::vector<std::pair<int, size_t> > byPos; for(size_t z = 0; z < grp.size(); ++z) byPos.push_back(std::make_pair(deliveredPos[tk][grp[z]], grp[z])); std::sort(byPos.begin(), byPos.end());
+                        for(size_t z = 0; z < byPos.size(); ++z) seq += (ref.tracks[tk][byPos[z].second].kind == 0x9 ? "on#" : "off#") + std::to_string(byPos[z].second) + " ";
+                        run.fail("same-tick-note-on-off-order", ref.tracks[tk][want[q]].kind == 0x8 ? "off-misplaced" : "on-misplaced", "track " + std::to_string(tk) + " tick " + std::to_string(a.tick) + " key " + std::to_string(a.d1) + " ch " + std::to_string(a.ch) + ": delivered " + seq + "(file order is ascending #; a note-off that ends an older note goes first)");
+                        break;
+                    }
                 }
                 // same-tick rules
                 for(size_t i = 0; i < ref.tracks[tk].size() && !run.failed(); ++i)
